@@ -55,6 +55,36 @@ def buffet_ref(comb, nr, mask, epl, wlen, line, shape_pin):
     return (sum(1 for v in first.values() if not v) * line, sum(1 for k in first if haswrite.get(k)) * line)
 
 
+def tiny_cache_ref(acc, shape, has_writes):
+    """a cache that cannot hold one whole line holds nothing but lines of the insertion staging area (positions
+    at or beyond the rank's shape, write-traced bindings only), from the access that creates them to their last
+    access: every read of another line is a fill, every in-shape write to another line goes straight to memory,
+    a staging line is written back once, when it leaves, if it received an in-shape write.
+    acc: [(line, pos, is_write)]; returns (fills, write-backs)"""
+    last = {}
+    for i, (ln, _, _) in enumerate(acc):
+        last[ln] = i
+    resident = {}
+    fills = wbs = 0
+    for i, (ln, pos, isw) in enumerate(acc):
+        inw = isw and pos < shape
+        is_last = last[ln] == i
+        if ln in resident:
+            resident[ln] = resident[ln] or inw
+            if is_last:
+                if resident[ln]:
+                    wbs += 1
+                del resident[ln]
+            continue
+        if not isw:
+            fills += 1
+        if has_writes and pos >= shape and not is_last:
+            resident[ln] = False
+        elif inw:
+            wbs += 1
+    return fills, wbs
+
+
 def belady_fills(seq, cap):
     """optimal (furthest next use, bypass allowed) replacement: number of fills"""
     n = len(seq)
@@ -212,10 +242,15 @@ class PipelineSim(WorldBase):
                     if 64 in pb.values() and line_elems % 2:
                         line_elems += 1
                 spec = self._gen_trace(g, name, order, tr, shape, fmt, with_write=(kind == "buffet" and g.random() < 0.5)
-                                       or (kind == "cache" and g.random() < (0.5 if ntens == 2 else 0.15)),
+                                       or (kind == "cache" and g.random() < (0.5 if ntens == 2 else 0.3)),
                                        epl=line_elems if kind == "cache" else 1, upper=upper,
                                        staging=(kind == "buffet"))
                 spec["pbits"] = pb
+                if kind == "cache" and ntens == 1 and spec["wrows"] is not None and g.random() < 0.6:
+                    # the tensor declares a smaller shape than the positions touched: positions at or beyond it
+                    # are the insertion staging area, in the read trace and in the write trace alike
+                    spec["shape"][-1] = g.randint(1, shape[order[-1]])
+                    spec["shrunk"] = True
                 evs.append(["trace", spec])
                 tens.append(spec)
             bindings = []
@@ -641,6 +676,18 @@ class PipelineSim(WorldBase):
                     self.probe("cache_evictions_needed")
                 if a.get("cap_frac"):
                     self.probe("cache_fractional_capacity")
+            if W is not None and len(a["bindings"]) == 1 and a["cap_lines"] == 0 and shape_last is not None:
+                acc = [(ln, r[2 * nr], isw) for ln, (r, isw) in zip(seq, comb)]
+                fl, wb = tiny_cache_ref(acc, shape_last, True)
+                got_w0 = traffic.get(name, {}).get("write", 0)
+                if (got_r, got_w0) != (fl * line, wb * line):
+                    self.V("C17", "C17.cache-below-one-line", fn,
+                           f"tensor {name}, capacity {a.get('cap_frac', 0)}/4 of a line, shape {shape_last}: charged read/write "
+                           f"{(got_r, got_w0)}; a buffer that holds no whole line (staging lines apart) costs "
+                           f"{(fl * line, wb * line)}")
+                self.probe("cache_below_one_line_with_writes")
+                if any(p >= shape_last for _, p, _ in acc):
+                    self.probe("cache_below_one_line_with_staging")
             # bounds that hold in every configuration
             if W is not None:
                 got_w = traffic.get(name, {}).get("write", 0)
